@@ -14,7 +14,9 @@ Contract = postcondition of `Ombott.__call__` for a handler that reads `request.
                  The "body that was sent" is the de-chunked payload (reference decoder /verif/spec/chunked_spec.py; no
                  oracle and no E3 check when the chunked framing itself is illegal: that is C05's subject), or the first
                  Content-Length bytes of the stream.
-  (hang)         the runner's per-case alarm reports a case that does not finish.
+  (hang)         the runner's per-case alarm reports a case that does not finish (clause 'hang').  Inputs aimed at it:
+                 part header blocks in which an option value opens a double quote and never closes it, followed by 8..200
+                 further characters (section 1b of the generator, generated last) -- the time to answer must not explode with that length.
 
 Nothing else is demanded (which malformed bodies are accepted and what they mean is left open by the statement).
 
@@ -35,7 +37,12 @@ BOUND = ('multipart: 4 base forms (boundaries BND, X, --a-; text+file parts, UTF
          '[delimiter, CRLF, header block, blank line, data, ..., close-delimiter, CRLF]: every deletion / duplication / adjacent swap '
          'of a token, every token replaced by each of its malformed variants (wrong/short/long boundary, LF or CR line ends, '
          'padding, close-delimiter variants, 62 header-block variants: no name, no colon, empty value, non-UTF-8, lower case, '
-         'unicode line separators, unbalanced quotes ...), truncation at EVERY offset (honest Content-Length, lying Content-Length, '
+         'unicode line separators, unbalanced quotes ...); unterminated quotes: every header block of base forms B1 and B2 replaced by '
+         'a block with an option value that opens a quote and never closes it -- in name= / filename= / another option of '
+         'Content-Disposition / a Content-Type parameter / an extra header line before Content-Disposition, alone or followed by '
+         'further options or a next header line -- followed by 8,12,16,20,24,28,32,40,64,100,200 characters of 4 fillers (a..., '
+         'separators "; = space", UTF-8, backslashes) x 2 framings/access modes (rotated), max_memfile_size 102400 / 4096; '
+         'truncation at EVERY offset (honest Content-Length, lying Content-Length, '
          'chunked payload, cut chunked wire), EVERY single-byte deletion, EVERY single-byte substitution by 10 bytes; all header '
          'blocks of <=4 (quick) / <=5 (thorough) tokens over an 11-token alphabet; all byte strings of length <=5 (quick) / <=7 '
          '(thorough) over {CR,LF,-,X,:,a} behind 5 well-formed prefixes; JSON: 81 listed bodies (invalid, non-object, non-UTF-8, '
@@ -179,6 +186,30 @@ OTHER_CTYPES = [None, '', 'text/plain', 'application/x-www-form-urlencoded', 'ap
                 'multipart/form-data; Boundary=BND', 'MULTIPART/FORM-DATA; boundary=BND', 'multipart/form-data; boundary=BN', 'multipart/form-data; boundary=-',
                 'multipart/form-data; boundary=' + 'b' * 300, 'multipart/form-data; boundary=\u00e9', 'multipart', 'multipart/', ';', 'application/json;',
                 ' application/json', 'application/json ; x']
+
+
+UNTERMINATED_LENGTHS = [8, 12, 16, 20, 24, 28, 32, 40, 64, 100, 200]
+UNTERMINATED_FILLERS = ['a', 'ab;c= d', '\u00e9x', 'a\\b']
+
+
+def unterminated_quote_headers():
+    """header blocks in which one option value opens a double quote that is never closed, followed by n more characters
+    (none of them a double quote): [(label, header block bytes)]"""
+    out = []
+    for n in UNTERMINATED_LENGTHS:
+        for fi, filler in enumerate(UNTERMINATED_FILLERS):
+            run = (filler * n)[:n].encode('utf8')
+            assert b'"' not in run and b'\r' not in run and b'\n' not in run
+            for label, h in (
+                    ('name', _cd(b'name="' + run)),
+                    ('filename', _cd(b'name="a"; filename="' + run)),
+                    ('other-option', _cd(b'name="a"; other="' + run)),
+                    ('name-then-options', _cd(b'name="' + run + b'; filename=x; p=q')),
+                    ('ctype-param', _cd(b'name="a"; filename="x"') + CRLF + b'Content-Type: text/plain; charset="' + run),
+                    ('extra-header-first', b'X-Other: v; p="' + run + CRLF + _cd(b'name="a"')),
+                    ('unquoted-name-then-quote', _cd(b'name=a; filename="' + run) + CRLF + b'Content-Type: text/plain')):
+                out.append((f'{label}:{n}:{fi}', h))
+    return out
 
 
 def _mp_ctype(bd):
@@ -376,6 +407,17 @@ def _gen(tier, seed):
         yield _case(body, ct, fr, rnd.choice([DEFAULT_MEM, DEFAULT_MEM, 256, 64, 16, 8]), rnd.choice(TOUCHES), desc,
                     cl=rnd.choice(['auto'] * 5 + [len(body) + 3, max(0, len(body) - 3)]), raw_wire=rnd.random() < .1,
                     max_body=rnd.choice([None] * 8 + [10, 100]))
+    # ---- 1b (generated last, so that the cases above keep their rotation of framing / threshold / access mode):
+    #         unterminated quotes of growing length in an option value of a part header (the answer must still come)
+    for bname in ('B1', 'B2'):
+        bd, parts = BASES[bname]
+        toks = tokens(parts, bd)
+        for k, (kind, tok) in enumerate(toks):
+            if kind != 'hdr':
+                continue
+            for label, alt in unterminated_quote_headers():
+                yield from spread(join(toks[:k] + [[kind, alt]] + toks[k + 1:]), _mp_ctype(bd), f'{bname}:unterminated-quote{k}:{label}', 2,
+                                  touches=['forms', 'catch', 'files', 'post', 'all'], mems=[DEFAULT_MEM, 4096])
 
 
 SETUP_MODES = ['setup-cfg', 'setup-empty', 'setup-none', 'setup-app-keys', 'resetup-cfg']
